@@ -168,9 +168,16 @@ fn gen_case(src: &mut Src, st: &mut Stats, _env: &Env) -> CaseResult {
             return Ok(());
         }
     };
+    // whatever failed just before on this thread has no influence on this search
+    let before = crate::syn::disturb(src, st);
     st.eval();
     let doc_text = doc.to_json();
-    let c = compare("gen", &tree, &text, &doc, &doc_text, st, false)?;
+    let c = compare("gen", &tree, &text, &doc, &doc_text, st, false).map_err(|mut f| {
+        if !before.is_empty() {
+            f.case["preceded_by_failing_compiles"] = json!(before);
+        }
+        f
+    })?;
     record_kinds(&tree, st);
     if c.nontrivial {
         let key = format!("{}\u{0}{}", text, doc_text);
